@@ -372,7 +372,11 @@ def infinity_prune_stream(ctx):
         fails = []
         try:
             d = Dendrogram.compute(arr.copy(), min_value=0)
-            met = all(rise(s) >= delta for s in d.leaves if s.parent is not None)
+            def span(s):
+                d_ = float(s.vmax) - float(s.vmin)
+                return 0.0 if d_ != d_ else d_
+            # (a leaf without a parent is measured from its own faintest pixel)
+            met = all((rise(s) if s.parent is not None else span(s)) >= delta for s in d.leaves)
             before = impl.impl_hierarchy(d, shape)
             d.prune(min_delta=delta)
             after = impl.impl_hierarchy(d, shape)
